@@ -179,6 +179,14 @@ class Contract:
                     break
         if chosen is not None and chosen.garbles:
             st.garbled = True
+        try:
+            return self._finish(ip, st, ctx, chosen)
+        except (Raised, Infeasible, OutOfSubset, EngineError, CutPath):
+            raise
+        except Exception as exc:      # a specification callback met a state it was not written for: undecided, never a crash
+            raise OutOfSubset('specification side of %s failed on this path: %r' % (self.name, exc))
+
+    def _finish(self, ip, st, ctx, chosen):
         if chosen is None:
             # no case applies: the caller failed to establish the (implicit) precondition
             st.oblige('%s#some-case-applies@callsite' % self.name, False)
@@ -620,7 +628,14 @@ class Verifier:
                     continue
 
             def one(k=k):
-                g = True if k.when is None else k.when(ctx)
+                try:
+                    g = True if k.when is None else k.when(ctx)
+                except (Infeasible, CutPath):
+                    raise
+                except Exception as e:
+                    results.append(Result('%s#%s' % (pname, k.name), 'undecided',
+                                          detail='guard not evaluable on this path: %r' % (e,)))
+                    return
                 if isinstance(g, SBool):
                     g = g.t
                 if g is False:
@@ -659,8 +674,13 @@ class Verifier:
                         if isinstance(g2, tuple):
                             g2, e2 = g2
                         goal, exact = conj(goal, g2), exact and e2
-                except OutOfSubset as e:
+                except (OutOfSubset, EngineError) as e:
                     results.append(Result(name, 'undecided', detail='spec side out of subset: %s' % e))
+                    return
+                except (Infeasible, CutPath):
+                    raise
+                except Exception as e:     # a specification callback met a state it was not written for
+                    results.append(Result(name, 'undecided', detail='specification side failed on this path: %r' % (e,)))
                     return
                 if st.check() == z3.unsat:
                     # the guard plus the spec's own facts contradict the path: vacuous, not a proof
